@@ -194,17 +194,17 @@ def loop_exhausted(ip, st, which=None):
                 groups.setdefault(head, {})['pos' if 'iter.pos@' in t[1] else 'end'] = t
             if t[0] == 'len' and t not in lens:
                 lens.append(t)
-    ok_any = False
+    nexts = [c for c in st.calls if (c[0].endswith('::next') or c[0].endswith('::pop')) and (which is None or which in c[0])]
+    by_next = bool(nexts) and st.variants.get(('call', nexts[-1][0], nexts[-1][1])) == 0
     for head, g in groups.items():
         if 'pos' not in g:
             return False
         if 'end' in g:
-            if not ip.entails(st, le(g['end'], g['pos'])):
-                return False
-        elif not any(ip.entails(st, le(T.typed(n, 'usize'), g['pos'])) for n in lens):
+            done = ip.entails(st, le(g['end'], g['pos']))
+        else:
+            done = any(ip.entails(st, le(T.typed(n, 'usize'), g['pos'])) for n in lens)
+        # an iterator object stepped by an uninterpreted next(): its position variable never moves, the call's answer decides
+        stepped_by_call = any(g['pos'] in list(T.subterms(c[1][0])) for c in nexts if c[1])
+        if not done and not (stepped_by_call and by_next):
             return False
-        ok_any = True
-    nexts = [c for c in st.calls if (c[0].endswith('::next') or c[0].endswith('::pop')) and (which is None or which in c[0])]
-    if nexts:
-        return st.variants.get(('call', nexts[-1][0], nexts[-1][1])) == 0
-    return ok_any
+    return bool(groups) or by_next
